@@ -1067,6 +1067,10 @@ class G:
                         ([FLOAT] if self.p["floats"] else []))
         if self.value_classes() and self.chance(10):
             ret = TCls(self.pick(self.value_classes()))
+        # a function whose value is a handled call of an earlier raising function (handle as tail): its return type follows
+        wrap = [g for g in self.funs.values() if g["raises"] and g["ret"] in PRIMS and not g.get("hidden")]
+        if wrap and self.p["handle"] and self.chance(30):
+            ret = self.pick(wrap)["ret"]
         raises = []
         if self.excs and self.p["exceptions"] and self.chance(45):
             raises = [self.pick(list(self.excs))]
